@@ -153,6 +153,33 @@ theorem ns_eq_hash (a b : NS) :
   refine ⟨nsEq_iff_key a b, fun t => ⟨?_, rfl⟩⟩
   simp [nsEq]
 
+/-- `hash()` raises `TypeError` exactly when a field value is unhashable, and otherwise hashes the tuple
+    `eq_hash` is about; nothing else in the model looks at hashability (constructor, update, convert, `|`,
+    `+`, `==` are total in the field values) -/
+theorem hash_rules (S : State) (i : Nat) (n : NS) :
+    ((∀ e ∈ (S.obj i).nss, ∀ v ∈ e.2.vals, unhashableVal v = false) → raHash S i = .ok (hashKey S i)) ∧
+    ((∃ e ∈ (S.obj i).nss, ∃ v ∈ e.2.vals, unhashableVal v = true) → raHash S i = .error .TypeError) ∧
+    ((∀ v ∈ n.vals, unhashableVal v = false) → nsHash n = .ok (nsHashKey n)) ∧
+    ((∃ v ∈ n.vals, unhashableVal v = true) → nsHash n = .error .TypeError) := by
+  refine ⟨?_, ?_, ?_, ?_⟩
+  · intro h
+    have : (S.obj i).nss.any (fun e => e.2.vals.any unhashableVal) = false := by
+      rw [List.any_eq_false]; intro e he
+      simp only [Bool.not_eq_true, List.any_eq_false]
+      intro v hv; rw [h e he v hv]
+    simp [raHash, this]
+  · rintro ⟨e, he, v, hv, hu⟩
+    have : (S.obj i).nss.any (fun e => e.2.vals.any unhashableVal) = true :=
+      List.any_eq_true.mpr ⟨e, he, List.any_eq_true.mpr ⟨v, hv, hu⟩⟩
+    simp [raHash, this]
+  · intro h
+    have : n.vals.any unhashableVal = false := by
+      rw [List.any_eq_false]; intro v hv; rw [h v hv]; simp
+    simp [nsHash, this]
+  · rintro ⟨v, hv, hu⟩
+    have : n.vals.any unhashableVal = true := List.any_eq_true.mpr ⟨v, hv, hu⟩
+    simp [nsHash, this]
+
 /-- attribute protocol of a namespace: a field reads its value, any other non-attribute name raises
     `UnknownArgsFieldError`; assignment and deletion always raise `AttributeError` -/
 theorem ns_attribute_rules (n : NS) (idx : Nat) (v : Int) :
